@@ -672,6 +672,15 @@ class Interp:
         elif isinstance(target, ast.Subscript):
             base = self.eval(target.value, frame)
             key = self.eval_slice(target.slice, frame)
+            if isinstance(key, sp.Integer):
+                key = int(key)
+            stack = [base]
+            while any(isinstance(b, Phi) for b in stack):
+                stack = [x for b in stack for x in ((b.a, b.b) if isinstance(b, Phi) else (b,))]
+            if len(stack) > 1 and all(isinstance(b, (dict, list)) for b in stack):
+                for b in stack:
+                    b[key] = value       # the store happens on whichever alternative is live
+                return
             if isinstance(base, (dict, list)):
                 base[key] = value
             elif isinstance(base, Vec) and isinstance(key, int):
